@@ -237,6 +237,8 @@ def run(ctx):
 
     init_results_checked(ctx, "C11")
     instance_keeps_order(ctx)
+    from .C16 import resolve_rule
+    resolve_rule(ctx)
     # ---- instance creation: fresh plugins, cgroup default, keyed insert
     rg = ctx.fn1("Oomd::Engine::Ruleset::registerRunnableRulesetForCgroupPath")
     X = Expander(P, rg)
